@@ -41,7 +41,9 @@ class FragmentsGenerator:
 
         names_to_exclude = exclude_names or set()
         self._fragments_names = self._fragments_names - names_to_exclude
-        for name in self._fragments_names:
+        names_to_generate = sorted(self._fragments_names)
+        while names_to_generate:
+            name = names_to_generate.pop(0)
             fragmanet_def = self.fragments_definitions[name]
             generator = ResultTypesGenerator(
                 schema=self.schema,
@@ -59,6 +61,10 @@ class FragmentsGenerator:
             if class_defs:
                 top_level_class_names.append(class_defs[0].name)
             dependencies_dict[name] = generator.get_fragments_used_as_mixins()
+            for dependency in sorted(dependencies_dict[name]):
+                if dependency not in self._fragments_names:
+                    self._fragments_names.add(dependency)
+                    names_to_generate.append(dependency)
             self._generated_public_names.extend(generator.get_generated_public_names())
             self._used_enums.extend(generator.get_used_enums())
 
